@@ -471,7 +471,7 @@ def _big_cases(tier):
 
 
 def cases(rng, tier):
-    n_seg, n_graph = (1200, 800) if tier == "quick" else (12000, 8000)
+    n_seg, n_graph = (900, 600) if tier == "quick" else (12000, 8000)
     for _ in range(n_seg):
         yield _seg_case(rng)
     for _ in range(n_graph):
@@ -846,6 +846,58 @@ def _spell_data(name, d):
     raise ValueError(name)
 
 
+def _requery_after_edit(case, atoms, atoms2, arr):
+    """query X, edit the array in place, query X again (directly adjacent, for every X): the second answer must be the
+    one a fresh array with the edited content gives.  Any memoisation keyed on the object shows up here."""
+    import numpy as np
+    import biotite.structure as struc
+    v = []
+    full = [list(a) + [0] * (5 - len(a)) for a in atoms]
+    fresh = _atom_array(atoms2, case.get("stack") or 0)
+    ia = np.array(case["idx"], dtype=int)
+    data = np.array(case["data"], dtype=int)
+    fn = _pyfn(case["fn"])
+
+    def canon(x):
+        if isinstance(x, (tuple, list)):
+            return [canon(y) for y in x]
+        if x is None:
+            return None
+        return np.asarray(x).tolist()
+
+    Q = [("get_residue_starts", lambda a: struc.get_residue_starts(a)),
+         ("get_residue_starts(stop)", lambda a: struc.get_residue_starts(a, add_exclusive_stop=True)),
+         ("get_chain_starts", lambda a: struc.get_chain_starts(a)),
+         ("get_chain_starts(stop)", lambda a: struc.get_chain_starts(a, add_exclusive_stop=True)),
+         ("get_residue_count", struc.get_residue_count), ("get_chain_count", struc.get_chain_count),
+         ("get_residues", struc.get_residues), ("get_chains", struc.get_chains),
+         ("get_residue_positions", lambda a: struc.get_residue_positions(a, ia)),
+         ("get_chain_masks", lambda a: struc.get_chain_masks(a, ia)),
+         ("get_residue_starts_for", lambda a: struc.get_residue_starts_for(a, ia)),
+         ("apply_residue_wise", lambda a: struc.apply_residue_wise(a, data, fn)),
+         ("apply_chain_wise", lambda a: struc.apply_chain_wise(a, data, fn)),
+         ("residue_iter", lambda a: [[int(u) for u in s.uid] for s in struc.residue_iter(a)]),
+         ("chain_iter", lambda a: [[int(u) for u in s.uid] for s in struc.chain_iter(a)])]
+    for name, q in Q:
+        try:
+            q(arr)
+            for k, new in case["mods"]:
+                _set_atom(arr, k, new)
+            got = canon(q(arr))
+            exp = canon(q(fresh))
+        except Exception as e:  # noqa: BLE001
+            v.append((f"C17/after-in-place-annotation-edit/{name}-{type(e).__name__}", f"{e} (atoms={atoms}, mods={case['mods']})"))
+            got = exp = None
+        finally:
+            for k, _ in case["mods"]:
+                _set_atom(arr, k, full[k])
+        if got != exp:
+            v.append((f"C17/after-in-place-annotation-edit/{name}/stale",
+                      f"{name}: {got} after editing the array in place, a fresh array with the same content gives {exp} "
+                      f"(atoms={atoms}, mods={case['mods']})"))
+    return v
+
+
 def _seg_oracle(case):
     atoms = case["atoms"]
     arr = _atom_array(atoms, case.get("stack") or 0)
@@ -854,6 +906,7 @@ def _seg_oracle(case):
     if mods and atoms:
         # hardening class 1: edit the annotations of the SAME array object in place and ask again
         atoms2 = _apply_mods(atoms, mods)
+        v += _requery_after_edit(case, atoms, atoms2, arr)
         for k, new in mods:
             _set_atom(arr, k, new)
         case2 = dict(case, spread={w: list(range(_n_segments(atoms2, w))) for w in "rc"}, bad_spread=None)
